@@ -909,6 +909,9 @@ func (env *Zlisp) Apply(fun *SexpFunction, args []Sexp) (Sexp, error) {
 		env.restoreControlState(callState)
 		return SexpNull, err
 	}
+	// the callee's return left pc at -1, the value that stops Run:
+	// put the caller back where it was.
+	env.pc = callState.pc
 	return res, nil
 }
 
